@@ -34,6 +34,14 @@
   (forall ((i Int)) (! (=> (and (<= 0 i) (< i (slen ps)) (bindFound r svc (select (sarr ps) i)))
        (= (Coin_Denom (select (sarr (Pricing_Price (pricingOf r svc (select (sarr ps) i)))) 0)) baseDenom)) :pattern ((select (sarr ps) i)))))
 
+; ---- the sum of the current prices of the first m providers of a list (what issuing requests to them records as fees)
+(declare-fun priceSum ((Array Key Bytes) Int Bytes Str (Slice Bytes) Int Str) Int)
+(assert (forall ((r (Array Key Bytes)) (t Int) (cons Bytes) (svc Str) (L (Slice Bytes)) (d Str)) (! (= (priceSum r t cons svc L 0 d) 0) :pattern ((priceSum r t cons svc L 0 d)))))
+(assert (forall ((r (Array Key Bytes)) (t Int) (cons Bytes) (svc Str) (L (Slice Bytes)) (m Int) (d Str)) (! (=> (> m 0) (= (priceSum r t cons svc L m d)
+   (+ (priceSum r t cons svc L (- m 1) d) (amt (priceCoins r t cons svc (select (sarr L) (- m 1))) d)))) :pattern ((priceSum r t cons svc L m d)))))
+; A15 (assumption of the escrow invariant): every binding quotes its price in the base denomination
+(define-fun pricesInBase ((r (Array Key Bytes))) Bool
+  (forall ((s Str) (p Bytes)) (! (=> (bindFound r s p) (= (Coin_Denom (select (sarr (Pricing_Price (pricingOf r s p))) 0)) baseDenom)) :pattern ((select r (KPricing s p))))))
 ; ---- issuing the requests of a batch (InitiateRequests): one request record and two pending markers per provider
 (define-fun issuedReq ((r (Array Key Bytes)) (t Int) (h Int) (id Bytes) (c RequestContext) (cnt Int) (p Bytes)) CompactRequest
   (mkCompactRequest id cnt p (ite (RequestContext_SuperMode c) noCoins (priceCoins r t (RequestContext_Consumer c) (RequestContext_ServiceName c) p))
